@@ -217,10 +217,10 @@ public:
      */
     auto clean_expired_values() -> size_t
     {
-        size_t start_size = m_ttl_list.size();
-        auto   now        = std::chrono::steady_clock::now();
+        auto now = std::chrono::steady_clock::now();
 
         std::lock_guard guard{m_lock};
+        size_t          start_size = m_ttl_list.size();
         // Loop through and delete all items that are expired.
         while (m_used_size > 0 && now >= m_ttl_list.begin()->first)
         {
@@ -234,17 +234,29 @@ public:
     /**
      * @return If this cache is currenty empty.
      */
-    auto empty() const -> bool { return (m_used_size == 0); }
+    auto empty() const -> bool
+    {
+        std::lock_guard guard{m_lock};
+        return (m_used_size == 0);
+    }
 
     /**
      * @return The number of elements inside the cache.
      */
-    auto size() const -> size_t { return m_used_size; }
+    auto size() const -> size_t
+    {
+        std::lock_guard guard{m_lock};
+        return m_used_size;
+    }
 
     /**
      * @return The maximum capacity of this cache.
      */
-    auto capacity() const -> size_t { return m_elements.size(); }
+    auto capacity() const -> size_t
+    {
+        std::lock_guard guard{m_lock};
+        return m_elements.size();
+    }
 
 private:
     struct element
@@ -428,7 +440,7 @@ private:
     }
 
     /// Cache lock for all mutations if thread_safe is enabled.
-    mutex<thread_safe_type> m_lock;
+    mutable mutex<thread_safe_type> m_lock;
 
     /// The current number of elements in the cache.
     size_t m_used_size{0};
